@@ -213,6 +213,9 @@ type Layout struct {
 	// ShuffleCalls writes the calls of a pipeline in a drawn order (often
 	// reversed) instead of dependency order.
 	ShuffleCalls bool
+	// CallOrder, when set, makes the choices of ShuffleCalls (instead of
+	// Pick, which then stays free to be nil: nothing else varies).
+	CallOrder func(n int) int
 	// Dangling adds comments that are not followed by an element of their
 	// scope (before a closing bracket).
 	Dangling bool
@@ -468,13 +471,17 @@ func (p *printer) printPipeline(prog *Program, pl *Pipeline) {
 		// calls may be written in any order (the compiler sorts them by
 		// dependency): consumers before their producers, chains back to front
 		calls = append([]*Call{}, calls...)
-		if p.pick(3) == 0 {
+		pick := p.pick
+		if p.lay.CallOrder != nil {
+			pick = p.lay.CallOrder
+		}
+		if pick(3) == 0 {
 			for i, j := 0, len(calls)-1; i < j; i, j = i+1, j-1 {
 				calls[i], calls[j] = calls[j], calls[i]
 			}
 		} else {
 			for i := len(calls) - 1; i > 0; i-- {
-				j := p.pick(i + 1)
+				j := pick(i + 1)
 				calls[i], calls[j] = calls[j], calls[i]
 			}
 		}
